@@ -109,3 +109,13 @@ def register(reg):
         "Trusted: exact rational arithmetic. Blind spots: configurations with all points within 0.1 of the origin (K15) and "
         "aspect ratio >= 100 (K16) are only checked up to the recorded magnitude.",
         "DESIGN.md section 4 C18")
+
+    reg("C14",
+        "executable-model monitor over update_pose/query histories: a freshly constructed collider at the current pose is the model; poses handed over as fresh arrays, stack slices and TransformManager results",
+        "1 200 (quick) / 24 000 (thorough) histories of 1-10 poses on the 9 collider types with update_pose (+Margin): after "
+        "every update 6 support queries, aabb, center, first_vertex, collider2origin and gjk / gjk_intersection / "
+        "mpr_intersection against a probe are compared with a new collider built at that pose (1e-9 L); any exception of the "
+        "long-lived object is a violation.",
+        "Trusted: the constructors themselves (their correctness is C03/C04's subject). Mesh support points are compared by "
+        "projection (ties).",
+        "DESIGN.md section 4 C14")
